@@ -3,6 +3,7 @@ package psim
 import (
 	"fmt"
 	"os"
+	"syscall"
 	"strings"
 
 	"github.com/martian-lang/martian/martian/verifsim/vos"
@@ -30,6 +31,8 @@ var manifestations = []manifest{
 	{"die-signal", "transient", "smj", 0},
 	{"die-early", "transient", "smj", 0},
 	{"transient-error", "transient", "smj", 0},
+	{"late-error", "hard", "smj", 0},
+	{"late-transient-error", "transient", "smj", 0},
 	{"truncated-outs", "hard", "smj", 0},
 	{"invalid-json", "hard", "mj", 0},
 	{"missing-outs", "hard", "mj", 0},
@@ -68,6 +71,7 @@ func applicable(m manifest, j *JobRec, st *StageDef) bool {
 
 func c06Case(c *Ctx) {
 	gcfg := swarmGen(c.Plan, c.thorough())
+	gcfg.ChunkFiles = true
 	prog := Generate(c.Plan, gcfg)
 	fcfg := &FCfg{MaxLen: 1 + c.Plan.Draw(3), MaxChunks: 1 + c.Plan.Draw(3), Salt: "c06"}
 	retries := []int{0, 2, -1}[c.Plan.Draw(3)] // -1: mrp's default (from retry.json)
@@ -99,7 +103,13 @@ func c06Case(c *Ctx) {
 	c.Res.Shape = progShape(prog)
 	c.Res.Class = "twin-" + twin.Class()
 	if twin.Class() != "complete" || len(twin.Panics) > 0 || len(twin.Jobs) == 0 {
-		c.Res.Notes = append(c.Res.Notes, "base run unusable: "+twin.Class())
+		why := twin.Class()
+		if len(twin.Panics) > 0 {
+			why += " with a panic: " + firstLines(twin.Panics[0], 3)
+		} else if len(twin.Jobs) == 0 {
+			why += " without any job"
+		}
+		c.Res.Notes = append(c.Res.Notes, "base run unusable: "+why)
 		return
 	}
 	actTwin, err := twin.ReadTopOuts()
@@ -107,6 +117,12 @@ func c06Case(c *Ctx) {
 		return
 	}
 	twinOuts := Canon(twin.normFiles(actTwin))
+	twinArgs := map[string]string{}
+	for _, j := range twin.Jobs {
+		if j.Args != nil {
+			twinArgs[j.Key()+":"+j.Phase] = Canon(twin.normFiles(j.Args))
+		}
+	}
 	ev, _ := Evaluate(prog, twin.Jobs)
 	if ev.Rejected != "" || ev.Incomplete || len(ev.Problems) > 0 {
 		c.Res.Notes = append(c.Res.Notes, "base run not explained by the model")
@@ -146,8 +162,31 @@ func c06Case(c *Ctx) {
 			cfg.JobFaults = map[string]string{key + "#1": m.name}
 			cfg.Restarts = 1
 		}
-		r := c.RunOnce(cfg, nil)
-		vs := checkFailure(r, twin, ev, j, m, persistent, retries, twinOuts)
+		// the job dies without a word and the disk is full: mrp, which has to record
+		// the failure itself, cannot write the error file (first incarnation only)
+		diskFull := (m.name == "exit-nonzero" || m.name == "die-signal") && (jobMode == "" || j.JobType == "local") && c.Plan.Draw(3) == 0
+		var setup func(r *Run)
+		if diskFull {
+			setup = func(r *Run) {
+				r.PreStart = func() {
+					vos.W.Before = func(ev *vos.Event, data []byte) error {
+						if r.Inc == 1 && ev.PKind == "mrp" && ev.Op == "write" && strings.HasSuffix(ev.Path, "/_errors") {
+							r.Faults["error-file-write-fails-enospc"]++
+							return &os.PathError{Op: "write", Path: r.abs(ev.Path), Err: syscall.ENOSPC}
+						}
+						return nil
+					}
+				}
+			}
+		}
+		r := c.RunOnce(cfg, setup)
+		var vs []Violation
+		if diskFull {
+			c.Res.Probes["fault-runs-with-full-disk"]++
+			vs = checkFailureDiskFull(r, j, m, persistent, twinOuts)
+		} else {
+			vs = checkFailure(r, twin, ev, j, m, persistent, retries, twinOuts, twinArgs)
+		}
 		c.Res.Probes["fault-runs"]++
 		c.Res.Probes["manifest:"+m.name]++
 		if len(vs) > 0 || c.Keep || c.Res.Sample == nil {
@@ -205,7 +244,7 @@ func dependents(ev *Eval, node, fork string) map[string]bool {
 	return out
 }
 
-func checkFailure(r *Run, twin *Run, ev *Eval, fj *JobRec, m manifest, persistent bool, retries int, twinOuts string) []Violation {
+func checkFailure(r *Run, twin *Run, ev *Eval, fj *JobRec, m manifest, persistent bool, retries int, twinOuts string, twinArgs map[string]string) []Violation {
 	var out []Violation
 	desc := fmt.Sprintf("%s of %s (%s), persistent=%v, autoretry=%d", m.name, fj.Key(), fj.Phase, persistent, retries)
 	add := func(oracle, msg string) {
@@ -341,6 +380,28 @@ func checkFailure(r *Run, twin *Run, ev *Eval, fj *JobRec, m manifest, persisten
 			break
 		}
 	}
+	// (7) whatever ran without a fault of its own was given what the fault-free run
+	// gave it, and every file named in its arguments was there (no VDR in these runs)
+	for _, j := range r.Jobs {
+		if len(j.MissingFiles) > 0 {
+			add("job-given-a-file-that-does-not-exist", fmt.Sprintf("job %s (%s) of incarnation %d: files named in its arguments are missing or changed: %v", j.Key(), j.Phase, j.Inc, j.MissingFiles))
+			break
+		}
+	}
+	if r.Class() == "complete" {
+		want := twinArgs
+		for _, j := range r.Jobs {
+			if j.Args == nil || j.Fault != "" {
+				continue
+			}
+			if w, ok := want[j.Key()+":"+j.Phase]; ok {
+				if got := Canon(r.normFiles(j.Args)); got != w {
+					add("job-received-other-arguments-after-failure", fmt.Sprintf("job %s (%s) of incarnation %d received %s, in the fault-free run %s", j.Key(), j.Phase, j.Inc, got, w))
+					break
+				}
+			}
+		}
+	}
 	// (6) restart after the fault is gone
 	if expectFail && !persistent && len(r.ExitCodes) > 1 {
 		last := r.ExitCodes[len(r.ExitCodes)-1]
@@ -369,6 +430,41 @@ func checkFailure(r *Run, twin *Run, ev *Eval, fj *JobRec, m manifest, persisten
 				}
 			}
 		}
+	}
+	return out
+}
+
+// checkFailureDiskFull: the job died silently and mrp could not write the error file.
+// Whether mrp can still tell a transient failure from a hard one is not asked; it
+// must not hang and must not report success with other outputs, and a restart (with
+// space on the disk again) finishes the pipestance.
+func checkFailureDiskFull(r *Run, fj *JobRec, m manifest, persistent bool, twinOuts string) []Violation {
+	var out []Violation
+	desc := fmt.Sprintf("%s of %s (%s) while mrp cannot write error files (ENOSPC), persistent=%v", m.name, fj.Key(), fj.Phase, persistent)
+	add := func(oracle, msg string) {
+		out = append(out, Violation{"C06", oracle, desc + ": " + msg, r.Steps})
+	}
+	switch r.Class() {
+	case "step-budget":
+		r.Probes["step-budget-exhausted"]++
+		return out
+	case "step-limit", "stalled", "no-exit":
+		add("failure-never-reported", "mrp neither failed nor finished ("+r.Class()+"): "+lastLines(r.outBuf.String(), 6))
+		return out
+	}
+	if len(r.ExitCodes) == 0 {
+		add("no-exit", "mrp did not exit: "+r.Class())
+		return out
+	}
+	if r.ExitCodes[0] == 0 || (len(r.ExitCodes) > 1 && r.ExitCodes[len(r.ExitCodes)-1] == 0) {
+		if act, err := r.ReadTopOuts(); err != nil {
+			add("outs-missing", err.Error())
+		} else if got := Canon(r.normFiles(act)); got != twinOuts {
+			add("outs-differ", fmt.Sprintf("final outputs %s differ from the fault-free run's %s", got, twinOuts))
+		}
+	}
+	if !persistent && len(r.ExitCodes) > 1 && r.ExitCodes[len(r.ExitCodes)-1] != 0 {
+		add("restart-after-fault-removed-failed", fmt.Sprintf("exit codes %v: %s", r.ExitCodes, lastLines(r.outBuf.String(), 8)))
 	}
 	return out
 }
